@@ -20,37 +20,10 @@ read leads to the origin.
 namespace Httpcache.C10
 open Httpcache
 
-/-- an environment: how the outside world answers each operation (any functions at all) -/
-structure Env where
-  refs : Str → Option (List Ref)
-  entry : Str → Option Entry
-  setEntry : Str → Entry → Bool
-  setRefs : Str → List Ref → Bool
-  origin : Str → Header → Option Int → OriginAns
-
-/-- the execution of a program against an environment, by structural recursion on the tree: its
-    mere definability is the termination ("no hang in the logic") argument -/
-def exec (env : Env) : Prog → List Step × Result
-  | .ret r => ([], r)
-  | .getRefs k f => let a := env.refs k; let (t, r) := exec env (f a); (.getRefs k a :: t, r)
-  | .getEntry i f => let a := env.entry i; let (t, r) := exec env (f a); (.getEntry i a :: t, r)
-  | .setEntry i e f => let a := env.setEntry i e; let (t, r) := exec env (f a); (.setEntry i e a :: t, r)
-  | .setRefs k l f => let a := env.setRefs k l; let (t, r) := exec env (f a); (.setRefs k l a :: t, r)
-  | .delete k f => let (t, r) := exec env f; (.delete k :: t, r)
-  | .origin m h d f => let a := env.origin m h d; let (t, r) := exec env (f a); (.origin m h d a :: t, r)
-  | .spawn bg f => let (t, r) := exec env f; (.spawn bg :: t, r)
-
-/-- Totality: for every program and every environment there is a (finite) execution. -/
-theorem terminates (env : Env) (p : Prog) : Run p (exec env p).1 (exec env p).2 := by
-  induction p with
-  | ret r => exact Run.ret r
-  | getRefs k f ih => exact Run.getRefs _ (ih _)
-  | getEntry i f ih => exact Run.getEntry _ (ih _)
-  | setEntry i e f ih => exact Run.setEntry _ (ih _)
-  | setRefs k l f ih => exact Run.setRefs _ (ih _)
-  | delete k f ih => exact Run.delete ih
-  | origin m h d f ih => exact Run.origin _ (ih _)
-  | spawn bg f _ ih => exact Run.spawn ih
+/-- Totality: for every program and every environment (`Env`, `exec`, Proofs/Run.lean) there is a
+    finite execution; `exec` is defined by structural recursion on the tree, which is the
+    termination argument. -/
+theorem terminates (env : Env) (p : Prog) : Run p (exec env p).1 (exec env p).2 := exec_runs env p
 
 theorem round_trip_terminates (env : Env) (cfg : Cfg) (t0 : Int) (req : Req) :
     ∃ tr r, Run (roundTrip cfg t0 req) tr r := ⟨_, _, terminates env _⟩
